@@ -5,6 +5,6 @@ LEAN_MODULES = _auto.lean_modules("C06")
 VARIANTS = ['default']
 RULE = 'lengths {0,1,15,16,17,63,64,65,random} squared x key length x partitions of AAD/data across add_data/encrypt/encrypt_mut/decrypt/decrypt_mut; non-trivial = non-empty aad or data; distinct = distinct case lines'
 TRUSTED = ["hand-written Lean models (lean/CxVerif/Impl, Spec) tied to the code by the correspondence run and by tables re-extracted from /repo/src"]
-ASSUMPTIONS = []
+ASSUMPTIONS = ['AAD and data lengths < 2^64; the Spec extends RFC 8439 beyond its 2^38-64 byte plaintext limit by letting the 32-bit block counter wrap as the code does — the RFC itself is silent there and the crate does not enforce the limit (observation, DESIGN 12)']
 gen = _auto.make_gen("C06")
 nontrivial = _auto.default_nontrivial
